@@ -87,6 +87,17 @@ psRes_t psVerifySig(psPool_t *pool,
         else
 #  endif /* USE_PKCS1_PSS */
         {
+            /* PKCS #1 v1.5 signs a digest (or the MD5+SHA-1 pair): the
+               recovered value goes to out[], so a longer reference message
+               (e.g. a whole TBSCertificate whose signatureAlgorithm says
+               Ed25519 while the issuer key is RSA) can never match and
+               must not be unpadded into it */
+            if (msgInLen > sizeof(out))
+            {
+                psTraceCrypto("Message too long for an RSA PKCS #1.5 signature\n");
+                rc = PS_VERIFICATION_FAILED;
+                goto out;
+            }
 
             /* The RSA public key operation works in place: run it on a
                copy so that the caller's (const) signature - e.g. the
